@@ -30,6 +30,7 @@ from __future__ import annotations
 
 import ast
 import inspect
+import os
 import struct
 import textwrap
 import time
@@ -45,6 +46,8 @@ from vgi_rpc import shm as shm_mod
 from vgi_rpc.rpc import _server as srv
 from vgi_rpc.rpc import _wire as wire
 from vgi_rpc.rpc._common import RpcError, TransportKind, VersionError
+from vgi_rpc.utils import IPCError as _IPCError
+from vgi_rpc.utils import IpcValidation
 
 PROPERTY = "C05"
 ENCODED = [wire._read_request, shm_mod.resolve_shm_batch, shm_mod.is_shm_pointer_batch, srv._maybe_attach_shm, srv._ConnectionShm.refresh, srv.RpcServer.serve_one, srv.RpcServer.serve]
@@ -52,10 +55,15 @@ BOUNDS = (
     "one request batch; metadata = None | mapping with symbolic presence of vgi_rpc.method / request_version / traceparent / tracestate / "
     "shm_segment_name / shm_segment_size / shm_offset / shm_length / log_level, byte values any bytes len<=3 (incl. non-UTF-8), numeric values "
     "(segment size, offset, length) = 'int() accepts -> any int' | 'int() rejects'; rows 0..3; columns 0..2; attach outcome in {segment, "
-    "FileNotFoundError, PermissionError, ValueError, OSError, struct.error}; region decode in {ok, ArrowInvalid}; free in {ok, ValueError}"
+    "FileNotFoundError, PermissionError, ValueError, OSError, struct.error}; region decode in {ok, ArrowInvalid}; free in {ok, ValueError}; "
+    "batch contents: reading the request batch in {ok, IPCError = contents fail validation}, 0..1 trailing valid batch, parameter value conversion "
+    "(as_py) of either column in {ok, OverflowError, ValueError, ArrowInvalid, UnicodeDecodeError, ArrowIndexError}"
 )
 OUTSIDE = (
-    "truncated / corrupted byte strings and everything the Arrow C++ reader decides (framing, column types); the dispatch half of serve_one "
+    "truncated / corrupted byte strings and what the Arrow C++ reader decides about framing (column contents enter as the two fault sites "
+    "'validation of the request batch' and 'value conversion', with the exception classes observed on real pyarrow 25 over temporal, decimal, string, "
+    "dictionary, nested, union, view and extension types); request streams with more than one batch where a trailing batch fails validation "
+    "(outside the quantifier; item behind VERIF_C05_MULTIBATCH=1); the dispatch half of serve_one "
     "after _read_request (method lookup, parameter validation: C06/C04); external-location pointer requests; real POSIX shm semantics beyond "
     "the attach contract; segment CONTENTS (a pointer may name any bytes: modelled as decode ok | ArrowInvalid | OSError | StopIteration) (replays stage every attach outcome with real POSIX segments except PermissionError, which cannot be provoked as root); whether ending the connection on ArrowInvalid from a shm region (answered) is acceptable is taken from the property text"
 )
@@ -131,8 +139,23 @@ class _MD:
         raise HarnessModelError(f"metadata mapping used through .{name}")
 
 
+def _conv_errors() -> list:
+    """What ``Scalar.as_py()`` raises on real pyarrow for a value Python cannot represent, by column type (each one
+    observed on the real library: timestamp/date/duration/time out of range, timestamp[ns] out of range, unknown time
+    zone, invalid UTF-8 below full validation, dictionary index out of bounds below full validation)."""
+    return [None, OverflowError("date value out of range"), ValueError("year 292277026596 is out of range"),
+            pa.ArrowInvalid("Cannot locate timezone 'No/Such_Zone'"), UnicodeDecodeError("utf-8", b"\xff", 0, 1, "invalid start byte"),
+            pa.ArrowIndexError("tried to refer to element 5 but array is only 1 long")]
+
+
 class _Scalar:
+    def __init__(self, col: int = -1) -> None:
+        self.col = col
+
     def as_py(self) -> int:
+        k = _H.get("conv_fault", 0)
+        if k and self.col == _H.get("conv_col", 0):
+            raise _conv_errors()[k]
         return 7
 
 
@@ -150,7 +173,7 @@ class _Batch:
     def column(self, i: int) -> list[_Scalar]:
         if self.num_rows < 1:
             raise IndexError("index out of bounds")  # what pyarrow raises for [0] of an empty column
-        return [_Scalar()]
+        return [_Scalar(i)]
 
     def __getattr__(self, name: str) -> object:
         raise HarnessModelError(f"batch used through .{name}")
@@ -164,19 +187,31 @@ class _Reader:
 
     def __init__(self, raw: object, validation: object) -> None:
         self.n = 0
+        self.eos = False  # the stream's end marker has been read (the transport is aligned for the next request)
         _H["reader"] = self
 
-    def read_next_batch_with_custom_metadata(self) -> tuple[_Batch, object]:
+    def _next(self) -> None:
+        """Position bookkeeping shared by both read methods; raises what the real ValidatedReader raises.
+        ``read_fault``: the request batch is well framed but its contents fail validation (IPCError: the message has
+        been consumed, the stream goes on).  ``trailing``: one more, valid, batch follows the request batch."""
         self.n += 1
-        if self.n > 1 or _H.get("no_batch"):
+        total = 0 if _H.get("no_batch") else 1 + _H.get("trailing", 0)
+        if self.n > total:
+            self.eos = True
             raise StopIteration  # a well-framed stream may hold schema + EOS and no batch at all
-        return _H["batch"], _H["md"]
+        if (self.n == 1 and _H.get("read_fault")) or (self.n == 2 and _H.get("trailing_invalid")):
+            raise _IPCError("IPC batch validation failed: In column 0: Invalid: date64[ms] 5 does not represent a whole number of days")
+
+    def read_next_batch_with_custom_metadata(self) -> tuple[_Batch, object]:
+        self._next()
+        return _H["batch"], (_H["md"] if self.n == 1 else None)
 
     def read_next_batch(self) -> _Batch:
-        self.n += 1
-        if self.n > 1 or _H.get("no_batch"):
-            raise StopIteration
+        self._next()
         return _H["batch"]
+
+    def __getattr__(self, name: str) -> object:
+        raise HarnessModelError(f"request reader used through .{name}")
 
 
 class _IpcNS:
@@ -402,7 +437,7 @@ def _describe_reply(stream: list) -> str:
 
 
 def _serve_and_observe(extra_md: dict[bytes, bytes], rows: int, ncols: int = 2, static_region: str | None = None, md_none: bool = False, expect_survive: bool = True,
-                       prelude: list | None = None, raw_request: bytes | None = None) -> str | None:
+                       prelude: list | None = None, raw_request: bytes | None = None, validation: object = None) -> str | None:
     """Send one crafted request to a real RpcServer.serve() over os.pipe()s, then a normal call.
 
     *prelude*: metadata dicts of ordinary one-row calls sent (and required to be answered) first, on the
@@ -443,7 +478,7 @@ def _serve_and_observe(extra_md: dict[bytes, bytes], rows: int, ncols: int = 2, 
                     seg.free(res[0])  # bytes still decode, but the table has no entry at that offset
                 extra_md[md.SHM_OFFSET_KEY] = str(res[0]).encode()
                 extra_md[md.SHM_LENGTH_KEY] = str(res[1]).encode()
-        server = RpcServer(Svc, Impl())
+        server = RpcServer(Svc, Impl()) if validation is None else RpcServer(Svc, Impl(), ipc_validation=validation)
         client_t, server_t = make_pipe_pair()
         transport = ShmPipeTransport(server_t, seg) if seg is not None else server_t
         end: dict = {}
@@ -585,7 +620,7 @@ def read_request_method_version(md_none: bool, other_keys: bool, has_method: boo
     kind = _classify(exc)
     if kind not in ("return", "typed"):
         return _fail("untyped-exception" if kind == "other" else "arrow-invalid-for-well-framed-request")
-    if _H["reader"].n < 2:
+    if not _H["reader"].eos:
         # rejected or accepted, the request stream must have been read past its EOS: on a pipe the
         # reader is shared, left-over bytes would be parsed as the start of the next request
         return _fail("request-stream-not-drained")
@@ -1008,6 +1043,143 @@ def read_request_dynamic_attach(has_name: bool, name: bytes, has_size: bool, siz
         return _fail("arrow-invalid-for-decodable-request")
     # (whether the per-request attachment is detached again, and how often its region is released, is resource
     # accounting — no request goes unanswered over it — and not asserted)
+    return True
+
+
+# ---------------------------------------------------------------------------
+# (4b) batch CONTENTS: validation failure of the request batch; values as_py() cannot represent
+# ---------------------------------------------------------------------------
+
+
+def _contents_request(a: dict) -> tuple[bytes, object]:
+    """Real bytes for a counterexample of read_request_batch_contents: (request stream, server validation level)."""
+    from vgi_rpc.utils import new_ipc_stream
+
+    def i64(v: int, t: pa.DataType) -> pa.Array:
+        return pa.array([v], pa.int64()).cast(t, safe=False)
+
+    level: object = None
+    ncols, col = int(a.get("ncols", 2)), int(a.get("conv_col", 0))
+    arrays = [pa.array([1], pa.int64()) for _ in range(ncols)]
+    if a.get("read_fault"):
+        arrays[0] = i64(5, pa.date64())  # well framed; full validation: "does not represent a whole number of days"
+    else:
+        k = int(a.get("conv_fault", 0))
+        if col < ncols and k:
+            if k == 1:
+                arrays[col] = i64(2**62, pa.timestamp("s"))  # OverflowError
+            elif k == 2:
+                arrays[col] = i64(2**62, pa.timestamp("ns"))  # ValueError (year out of range)
+            elif k == 3:
+                arrays[col] = pa.Array.from_buffers(pa.timestamp("s", tz="No/Such_Zone"), 1, [None, pa.py_buffer((0).to_bytes(8, "little"))])  # ArrowInvalid
+            elif k == 4:  # UnicodeDecodeError — reaches as_py() only below full validation
+                arrays[col] = pa.Array.from_buffers(pa.string(), 1, [None, pa.py_buffer(b"\x00\x00\x00\x00\x02\x00\x00\x00"), pa.py_buffer(b"\xff\xfe")])
+                level = IpcValidation.NONE
+            else:  # ArrowIndexError — dictionary index out of bounds, below full validation
+                arrays[col] = pa.DictionaryArray.from_arrays(pa.array([5], pa.int8()), pa.array(["x"]), safe=False)
+                level = IpcValidation.NONE
+    schema = pa.schema([pa.field("ab"[i], arrays[i].type) for i in range(ncols)])
+    batch = pa.RecordBatch.from_arrays(arrays, schema=schema)
+    sink = pa.BufferOutputStream()
+    with new_ipc_stream(sink, schema) as w:
+        w.write_batch(batch, custom_metadata=pa.KeyValueMetadata({md.RPC_METHOD_KEY: b"add", md.REQUEST_VERSION_KEY: md.REQUEST_VERSION}))
+        if a.get("trailing"):
+            w.write_batch(pa.RecordBatch.from_arrays([pa.nulls(1, f.type) for f in schema], schema=schema))  # a valid extra batch
+    return sink.getvalue().to_pybytes(), level
+
+
+def _replay_contents(a: dict) -> str | None:
+    body, level = _contents_request(a)
+    return _serve_and_observe({}, 1, int(a.get("ncols", 2)), raw_request=body, validation=level)
+
+
+_STUB_CONTENTS_READ = _STUB_READER + "; reading the request batch := batch | IPCError (contents fail validation; the message is consumed); at most one more, valid, batch"
+_STUB_CONTENTS_CONV = "Scalar.as_py() := value | OverflowError | ValueError | ArrowInvalid | UnicodeDecodeError | ArrowIndexError (each observed on real pyarrow)"
+
+
+@cond(q=30, t=60, stubs=[_STUB_CONTENTS_READ], encoded=[wire._read_request], replay=lambda a: _replay_contents(dict(a, read_fault=True)),
+      bound="valid method/version, 1 row, 1..2 columns of arbitrary type whose contents fail IPC validation (e.g. a date64 that is not a whole day); 0..1 trailing valid batch",
+      signature=lambda args, conc: _sig("C05:request-contents:", "validation-failure-escapes"))
+def read_request_batch_fails_validation(trailing: int, ncols: int) -> bool:
+    """
+    pre: 0 <= trailing <= 1 and 1 <= ncols <= 2
+    post: _
+    """
+    return _contents_outcome(True, trailing, 0, 0, ncols)
+
+
+@cond(q=60, t=120, stubs=[_STUB_CONTENTS_READ, _STUB_CONTENTS_CONV], encoded=[wire._read_request], replay=_replay_contents,
+      bound="valid method/version, 1 row, 1..2 columns of arbitrary type; the parameter value of column 0 | 1 converts (as_py) ok | raises one of the 5 exception "
+            "classes real pyarrow raises for unrepresentable values; 0..1 trailing valid batch",
+      signature=lambda args, conc: _sig("C05:request-contents:", "value-conversion-error-escapes"))
+def read_request_value_conversion_fails(trailing: int, conv_fault: int, conv_col: int, ncols: int) -> bool:
+    """
+    pre: 0 <= trailing <= 1 and 0 <= conv_fault <= 5 and 1 <= ncols <= 2 and 0 <= conv_col <= 1
+    post: _
+    """
+    return _contents_outcome(False, trailing, conv_fault, conv_col, ncols)
+
+
+def _replay_trailing_invalid(a: dict) -> str | None:
+    from vgi_rpc.utils import new_ipc_stream
+
+    ncols = int(a.get("ncols", 2))
+    schema = pa.schema([pa.field("ab"[i], pa.date64() if i == 0 else pa.int64()) for i in range(ncols)])
+
+    def batch(ms: int) -> pa.RecordBatch:
+        return pa.RecordBatch.from_arrays([pa.array([ms], pa.int64()).cast(pa.date64(), safe=False) if i == 0 else pa.array([1], pa.int64()) for i in range(ncols)], schema=schema)
+
+    sink = pa.BufferOutputStream()
+    with new_ipc_stream(sink, schema) as w:
+        w.write_batch(batch(86400000), custom_metadata=pa.KeyValueMetadata({md.RPC_METHOD_KEY: b"add", md.REQUEST_VERSION_KEY: md.REQUEST_VERSION}))
+        w.write_batch(batch(5))  # not a whole day: fails full validation when the stream is drained
+    return _serve_and_observe({}, 1, ncols, raw_request=sink.getvalue().to_pybytes())
+
+
+# A request stream with MORE than one batch is outside C05's quantifier ("all single-batch request streams") but inside
+# its statement ("any well-framed request stream").  On /repo 1e62938 a trailing batch that failed validation escaped
+# the serve loop through _drain_stream; repaired in /repo 8a98163, so the item is part of the claim.
+_CLAIM_MULTI_BATCH = os.environ.get("VERIF_C05_MULTIBATCH", "1") == "1"
+
+if _CLAIM_MULTI_BATCH:
+
+    @cond(q=30, t=60, stubs=[_STUB_CONTENTS_READ + "; the trailing batch's read := IPCError"], encoded=[wire._read_request, wire._drain_stream], replay=_replay_trailing_invalid,
+          bound="valid one-row request batch (1..2 columns) followed by one more batch whose contents fail IPC validation",
+          signature=lambda args, conc: _sig("C05:request-contents:", "trailing-batch-validation-failure-escapes"))
+    def read_request_trailing_batch_fails_validation(ncols: int) -> bool:
+        """
+        pre: 1 <= ncols <= 2
+        post: _
+        """
+        return _contents_outcome(False, 1, 0, 0, ncols, trailing_invalid=True)
+
+
+def _contents_outcome(read_fault: bool, trailing: int, conv_fault: int, conv_col: int, ncols: int, trailing_invalid: bool = False) -> bool:
+    _reset()
+    _H["trailing_invalid"] = trailing_invalid
+    _H["batch"] = _Batch(ncols, 1)
+    _H["md"] = _MD([_entry("method", True, b"add"), _entry("version", True, md.REQUEST_VERSION)], False)
+    _H["read_fault"] = read_fault
+    _H["trailing"] = trailing
+    _H["conv_fault"] = conv_fault
+    _H["conv_col"] = conv_col
+    exc: BaseException | None = None
+    try:
+        _read_request(object())
+    except Exception as e:  # noqa: BLE001
+        exc = e
+    kind = _classify(exc)
+    if kind == "other":
+        # the serve loop has no handler for it: the connection ends without a reply
+        if isinstance(exc, _IPCError):
+            return _fail("validation-failure-escapes" if read_fault else "trailing-batch-validation-failure-escapes")
+        return _fail("value-conversion-error-escapes" if isinstance(exc, (ArithmeticError, ValueError, LookupError)) else "untyped-exception")
+    if kind == "arrow":
+        # ArrowInvalid out of _read_request is answered, then *ends* the loop — allowed only for bytes that are not
+        # valid IPC, which this request is not
+        return _fail("arrow-invalid-for-well-framed-request")
+    if not _H["reader"].eos:
+        return _fail("request-stream-not-drained")
     return True
 
 
